@@ -64,9 +64,11 @@ def tip5 : Handler
       let l ← xs.natList?
       if !allCanon l then none
       let v ← toVec 10 l
-      let st := (Tip5.fixedLengthState (rawV v)).toList
-      let m := both (Loops.tip5_permutation_ok st) (fmtRawL ((Loops.tip5_permutation st).take 5))
-        (fmtRaw (Tip5.hash_10 (rawV v)))
+      let inp := (rawV v).toList
+      let g := match Loops.tip5_hash_10 inp with
+        | some d => fmtRawL d
+        | none => "diverge"
+      let m := both (Loops.tip5_hash_10_ok inp) g (fmtRaw (Tip5.hash_10 (rawV v)))
       pure (withSpec m (fmtVals (Spec.Tip5.hash10 v)))
   | "hashpair", [a, b] => do
       let la ← a.natList?; let lb ← b.natList?
@@ -109,8 +111,11 @@ def tip5 : Handler
   | "fermat", [.nat b] => some s!"ok:{offset_fermat_cube_map b}"
   | "lut", [.nat b] => if h : b < 256 then some s!"ok:{Tip5.lookup ⟨b, h⟩}" else none
   | "newstate", [.sym "fixed"] =>
-      some ("ok:" ++ fmtRaw (Tip5.fixedLengthState (Vector.replicate 10 Tip5.zero)))
-  | "newstate", [.sym "varlen"] => some ("ok:" ++ fmtRaw Tip5.varlenState)
+      some ("ok:" ++ both (Loops.tip5_new_ok 1) (match Loops.tip5_new 1 with | some l => fmtRawL l | none => "diverge")
+        (fmtRaw (Tip5.fixedLengthState (Vector.replicate 10 Tip5.zero))))
+  | "newstate", [.sym "varlen"] =>
+      some ("ok:" ++ both (Loops.tip5_new_ok 0) (match Loops.tip5_new 0 with | some l => fmtRawL l | none => "diverge")
+        (fmtRaw Tip5.varlenState))
   | "const", [.sym "lookup_table"] => some ("ok:" ++ fmtList LOOKUP_TABLE)
   | "const", [.sym "round_constants"] => some ("ok:" ++ fmtList ROUND_CONSTANTS)
   | "const", [.sym "mds_first_column"] => some ("ok:" ++ fmtList MDS_MATRIX_FIRST_COLUMN)
